@@ -22,38 +22,41 @@ def isStructLike (t : Expr) : MetaM Bool := do
   | _ => return false
 
 /-- take every structure-valued (or `∃`) proposition of the context apart -/
-partial def casesAll (g : MVarId) (fuel : Nat) : MetaM MVarId := do
-  if fuel == 0 then return g
-  let found ← g.withContext do
-    let lctx ← getLCtx
-    let mut r : Option FVarId := none
-    for d in lctx do
-      if d.isImplementationDetail then continue
-      let t ← instantiateMVars d.type
-      if !(← Meta.isProp t) then continue
-      if ← isStructLike t then
-        r := some d.fvarId
-        break
-    pure r
-  match found with
-  | none => return g
-  | some fv =>
-    let gs ← g.cases fv
-    match gs.toList with
-    | [g'] => casesAll g'.mvarId (fuel - 1)
-    | _ => throwError "casesAll: unexpected"
+def casesAll (g : MVarId) : Nat → MetaM MVarId
+  | 0 => pure g
+  | fuel+1 => do
+    let found ← g.withContext do
+      let lctx ← getLCtx
+      let mut r : Option FVarId := none
+      for d in lctx do
+        if d.isImplementationDetail then continue
+        let t ← instantiateMVars d.type
+        if !(← Meta.isProp t) then continue
+        if ← isStructLike t then
+          r := some d.fvarId
+          break
+      pure r
+    match found with
+    | none => return g
+    | some fv =>
+      let gs ← g.cases fv
+      match gs.toList with
+      | [g'] => casesAll g'.mvarId fuel
+      | _ => throwError "casesAll: unexpected"
 
-partial def buildAll (g : MVarId) : StateT (Array MVarId) MetaM Unit := do
-  let t ← instantiateMVars (← g.getType)
-  if (← Meta.isProp t) && (← isStructLike t) then
-    let gs ← g.constructor
-    for g' in gs do
-      unless ← g'.isAssigned do buildAll g'
-  else
-    let ok ← g.withContext do
-      try g.assumption; pure true
-      catch _ => pure false
-    unless ok do modify (·.push g)
+def buildAll (g : MVarId) : Nat → StateT (Array MVarId) MetaM Unit
+  | 0 => modify (·.push g)
+  | fuel+1 => do
+    let t ← instantiateMVars (← g.getType)
+    if (← Meta.isProp t) && (← isStructLike t) then
+      let gs ← g.constructor
+      for g' in gs do
+        unless ← g'.isAssigned do buildAll g' fuel
+    else
+      let ok ← g.withContext do
+        try g.assumption; pure true
+        catch _ => pure false
+      unless ok do modify (·.push g)
 
 /-- take the structure-valued hypotheses apart, rebuild the goal structure by structure, close the leaves by
 `assumption`; the leaves that are not closed are retried once (metavariables may have been assigned meanwhile)
@@ -61,7 +64,7 @@ and otherwise returned -/
 elab "xfer" : tactic => do
   let g ← getMainGoal
   let g ← casesAll g 400
-  let (_, rest) ← (buildAll g).run #[]
+  let (_, rest) ← (buildAll g 64).run #[]
   let mut out : List MVarId := []
   for g' in rest do
     let ok ← g'.withContext do
